@@ -47,6 +47,9 @@ func (p *scriptedPool) Connect(ctx context.Context, req pool.ConnectRequest) (*p
 	return &pool.ConnectResponse{PoolVersion: "scripted"}, nil
 }
 func (p *scriptedPool) Update(ctx context.Context, req pool.UpdateRequest) (*pool.UpdateResponse, error) {
+	if err := ctx.Err(); err != nil {
+		return nil, err // like a real transport: a finished context fails the call
+	}
 	p.mu.Lock()
 	p.updates = append(p.updates, req)
 	p.updateTimes = append(p.updateTimes, time.Now())
@@ -117,7 +120,7 @@ func idSet(calls []vlib.NodeCall, method string) []string {
 	return out
 }
 
-var c18Hosts = []string{"198.51.100.1", "198.51.100.2", "127.0.0.1", "0.0.0.0", "[::1]", "[::]", "localhost", "[2001:db8::9]", "node.example.org"}
+var c18Hosts = []string{"198.51.100.1", "198.51.100.2", "127.0.0.1", "0.0.0.0", "[::1]", "[::]", "localhost", "[2001:db8::9]", "[2001:db8:ffff::99]", "[2001:db9::1]", "node.example.org"}
 
 func c18Case(ev *vlib.Evidence, idx int) {
 	r := vlib.Rand("C18", idx)
@@ -141,6 +144,10 @@ func c18Case(ev *vlib.Evidence, idx int) {
 					// geth style: ID is a hash, the pubkey lives in the enode string
 					pi.ID = "hash-" + p.Name
 					pi.Enode = "enode://" + p.NodeID + "@" + pi.Network.RemoteAddress
+					if r.Intn(2) == 0 {
+						// what a node advertises about itself need not be where it is connected from
+						pi.Enode = fmt.Sprintf("enode://%s@%s:%d", p.NodeID, c18Hosts[r.Intn(len(c18Hosts))], 30303)
+					}
 				}
 				out = append(out, pi)
 			}
